@@ -676,6 +676,19 @@ class Oracles:
     def check_unit_node(self, nid, nr, node, now):
         """Splitter / combiner: one unit of work (a pallet).  Non-blocking: everything the finished unit yields is pushed or
         dropped in the finish instant.  Blocking FIRST_AVAILABLE: a finished unit is never held while an out-edge has room."""
+        # hygiene (C10, last sentence): one worker pushes one thing at a time, so at the end of an instant a unit node has at most one
+        # space request per out-edge, and none at all while it holds nothing
+        ptoks = self.node_tokens(nid, "p")
+        if ptoks:
+            oe = [e.id for e in node.out_edges]
+            per = {}
+            for tk in ptoks:
+                per[tk.edge] = per.get(tk.edge, 0) + 1
+            if len(set(oe)) == len(oe) and any(v > 1 for v in per.values()):
+                self.violate("C10", "leaked-space-reservation", self.nlabel(nid), f"{nid} has {per} outstanding space reservations per out-edge at end of instant {now} "
+                             f"(it pushes one thing at a time)")
+            elif not nr.held:
+                self.violate("C10", "leaked-space-reservation", self.nlabel(nid), f"{nid} holds nothing but has {len(ptoks)} outstanding space reservation(s) at end of instant {now}")
         life = None
         for l in nr.held.values():
             life = l if life is None or l["pull_seq"] < life["pull_seq"] else life      # the oldest unit still held
